@@ -436,7 +436,7 @@ func buildBlock(parent string, spec blockSpec) (builtBlock, error) {
 	}
 	var all []ser
 	seed := spec.ValSeed
-	var total int64
+	var total, maxChunk int64
 	var nchunks, nsamples uint64
 	for i := 0; i < spec.Series; i++ {
 		s := ser{lset: labels.FromStrings("__name__", "m", "s", fmt.Sprintf("%03d", i))}
@@ -478,14 +478,20 @@ func buildBlock(parent string, spec blockSpec) (builtBlock, error) {
 		cm.Chunk = c
 		s.chks = append(s.chks, cm)
 		for _, m := range s.chks {
-			total += int64(chunks.MaxChunkLengthFieldSize) + chunks.ChunkEncodingSize + int64(len(m.Chunk.Bytes())) + 4
+			sz := int64(chunks.MaxChunkLengthFieldSize) + chunks.ChunkEncodingSize + int64(len(m.Chunk.Bytes())) + 4
+			total += sz
+			if sz > maxChunk {
+				maxChunk = sz
+			}
 			nchunks++
 		}
 		all = append(all, s)
 	}
 	segSize := int64(chunks.DefaultChunkSegmentSize)
 	if spec.Segments > 1 {
-		segSize = total/int64(spec.Segments) + int64(chunks.SegmentHeaderSize) + 8
+		// greedy filling puts more than total/Segments bytes into every segment but the last, so at
+		// most spec.Segments files result (fewer if there are fewer chunks).
+		segSize = total/int64(spec.Segments) + maxChunk + int64(chunks.SegmentHeaderSize)
 	}
 	cw, err := chunks.NewWriter(filepath.Join(dir, "chunks"), chunks.WithSegmentSize(segSize))
 	if err != nil {
